@@ -23,7 +23,8 @@ RULE = ("one run = GFA1 (with lengths and specified overlaps) or GFA2 document, 
         "conversion, restart at vlevel 3, conversion back; distinct = distinct (document digest, how) pairs")
 PROBES = ["dollar_in_view", "gfa1_to_gfa2", "gfa2_to_gfa1", "asym_cigar", "containment_offset",
           "path_reversed_link", "circular_path", "single_segment_path", "named_edge", "unnamed_edge",
-          "internal_edge_dropped", "line_conversion_refused", "there_and_back", "self_link"]
+          "internal_edge_dropped", "line_conversion_refused", "there_and_back", "self_link",
+          "gfa2_only_content_refused"]
 
 
 def ps(p, length):
@@ -127,11 +128,47 @@ def gen(streams, tier, i):
         ids = set(ln.split("\t")[1] for ln in kept if ln.split("\t")[0] in "SEGOU")
         lines = [ln for ln in kept if not (ln.split("\t")[0] in ("O", "U") and
                                           any(x.rstrip("+-") not in ids for x in ln.split("\t")[2].split(" ")))]
+    gfa2only = False
+    if cfg.random() < 0.15:
+        # a segment of length 0
+        lines = lines + (["S\tzl0\t0\t*"] if src == "gfa2" else ["S\tzl0\t*\tLN:i:0"])
+    if src == "gfa2" and cfg.random() < 0.12:
+        # an identifier or a sequence that GFA2 allows and GFA1 cannot write: conversion refuses or drops,
+        # it never writes it into GFA1 text
+        segs = [ln.split("\t")[1] for ln in lines if ln.startswith("S\t")]
+        if segs:
+            old = cfg.choice(segs)
+            if cfg.random() < 0.6:
+                new = cfg.choice(["*A", "=B", "*", "=x1"]) if False else cfg.choice(["*A", "=B", "=x1"])
+                lines = [_rename_token(ln, old, new) for ln in lines]
+            else:
+                out = []
+                for ln in lines:
+                    f = ln.split("\t")
+                    if f[0] == "S" and f[1] == old and f[3] != "*":
+                        f[3] = "-" + f[3][1:]
+                    out.append("\t".join(f))
+                lines = out
+            gfa2only = True
     sr = streams.get("schedule")
     order, mode = hist.schedule(sr, lines)
     how = cfg.choice(["to_s", "to_s", "to_obj", "per_line", "per_line_rev"])
-    return {"cfg": {"version": src, "order": mode, "how": how, "vlevel": cfg.choice([1, 2, 3]), "view_only": view_only},
+    return {"cfg": {"version": src, "order": mode, "how": how, "vlevel": cfg.choice([1, 2, 3]), "view_only": view_only,
+                    "gfa2only": gfa2only},
             "lines": order, "ops": [{"op": "convert"}]}
+
+
+def _rename_token(line, old, new):
+    f = line.split("\t")
+    out = []
+    for i, x in enumerate(f):
+        if i == 0:
+            out.append(x)
+            continue
+        parts = x.split(" ")
+        parts = [(new + p[len(old):]) if (p == old or p in (old + "+", old + "-")) else p for p in parts]
+        out.append(" ".join(parts))
+    return "\t".join(out)
 
 
 def convert_text(g, target, how):
@@ -389,6 +426,9 @@ def run_2_to_1(m, g, cfg, st):
     st.count("probe.gfa2_to_gfa1")
     t = convert_text(g, "gfa1", "to_s" if cfg["how"] in ("per_line", "per_line_rev") else cfg["how"])
     st.count("oracle.conversion_succeeds")
+    if not t.ok and cfg.get("gfa2only") and t.kind == "gfapy":
+        st.count("probe.gfa2_only_content_refused")
+        return
     if not t.ok:
         raise core.Violation("conversion-raised", "GFA2->GFA1 (%s) raised %s: %s" % (cfg["how"], t.excname, str(t.exc)[:300]),
                              direction="2to1", exc=t.excname, frame=t.frame)
